@@ -82,6 +82,9 @@ def run_one(args):
         res["assumptions"] = sorted(env.assumptions)
         res["defined"] = len(S.DEFINED)
         res["roundoff"] = env.roundoff
+        res["z3"] = env.z3_stats
+        if env.z3_disagreements:
+            raise RuntimeError("back-end disagreement: z3 finds a point where a discharged identity fails: %s" % env.z3_disagreements[:3])
         if S.TINY_SEEN:
             res["notes"] = res["notes"] + ["float constants below 1e-40 treated as 0: %s" % sorted(set(S.TINY_SEEN))]
         res["atoms"] = len(S.A.names)
